@@ -651,8 +651,14 @@ def t_resize(ctx):
         ctx.oblige("safe", "resize.no_exception", False)
 
 
+def _eps(ctx):
+    from contracts import c19
+    return c19.t_eps_conversion(ctx)
+
+
 def verify(S):
-    targets = [("cluster.resize", t_resize),
+    # "regroup on": the linking length the caller gives (arcmin) reaches the clustering as the chord of that angle (C19's contract)
+    targets = [("cluster.eps_conversion", _eps), ("cluster.resize", t_resize),
                ("source_finder.SourceFinder._refit_islands[placement]", t_placement),
                ("source_finder.SourceFinder._refit_islands[shift]", t_shift),
                ("source_finder.SourceFinder._refit_islands[data_test]", t_notfit),
